@@ -61,16 +61,40 @@ def enclosing_fn(lines, ln):
 
 
 def run_unit(name, specs, outdir, probe=False, rlimit=None, threads=4):
-    ur = UnitRun(name)
-    try:
-        ur.unit = gen.generate_unit(name, specs, probe=probe)
-    except gen.GenError as e:
-        ur.gen_error = str(e)
-        return ur
-    ur.path = os.path.join(outdir, name + ('_probe' if probe else '') + '.rs')
-    with open(ur.path, 'w') as f:
-        f.write(ur.unit.text)
-    ur.res = verus.run_verus(ur.path, rlimit=rlimit, threads=threads)
+    """Generate and verify one unit.  If Verus REJECTS the input (type error, unsupported construct, unresolved name in an
+    annotation) and every such error lies inside extracted functions, those functions are demoted to contract-only stubs
+    (reported as undecided) and the unit is run again, so that one unreadable function does not hide the others."""
+    force = {}
+    for attempt in range(3):
+        ur = UnitRun(name)
+        try:
+            ur.unit = gen.generate_unit(name, specs, probe=probe, force_lost=force)
+        except gen.GenError as e:
+            ur.gen_error = str(e)
+            return ur
+        ur.path = os.path.join(outdir, name + ('_probe' if probe else '') + '.rs')
+        with open(ur.path, 'w') as f:
+            f.write(ur.unit.text)
+        ur.res = verus.run_verus(ur.path, rlimit=rlimit, threads=threads)
+        if not ur.res.fatal:
+            return ur
+        culprits = {}
+        outside = False
+        for d in ur.res.diags:
+            if d['level'] != 'error' or d['line'] is None or d['message'].startswith('aborting due to'):
+                continue
+            hit = None
+            for ln in [d['line']] + [x[0] for x in d.get('spans', [])]:
+                for em in ur.unit.items:
+                    if em.mode == 'verify' and em.name in specs and em.gen_start <= ln <= em.gen_end:
+                        hit = em.name
+            if hit:
+                culprits[hit] = 'verus rejected the function text: ' + d['message'][:200]
+            else:
+                outside = True
+        if not culprits or outside or all(c in force for c in culprits):
+            return ur
+        force.update(culprits)
     return ur
 
 
@@ -292,16 +316,26 @@ def check_property(pid, tier, seed, replay_only=None):
     kani_results, kani_violations = [], []
     hs = [h for h in kanimod.load_harness_files() if pid in h.props and not (tier == 'quick' and cfg.get('kani_tier', {}).get(h.name) == 'thorough')]
     if hs and not replay_only_verus(replay_only):
-        kres, klog, kwall = kanimod.run([h.name for h in hs], jobs=4)
+        khs = [h for h in hs if h.kind != 'rustc']
+        kres, klog, kwall = kanimod.run([h.name for h in khs], jobs=4) if khs else ({}, '', 0)
+        rhs = [h for h in hs if h.kind == 'rustc']
+        if rhs:
+            rres, _ = kanimod.run_rustc(rhs)
+            kres.update(rres)
         kbase = base.get('kani', {})
         for h in hs:
             r = kres[h.name]
             entry = {'harness': h.name, 'file': 'kani/' + h.file, 'appended_to': h.target, 'kind': h.kind, 'bound': h.bound,
-                     'companion_of': h.companion, 'status': r['status'], 'cbmc_checks': r['checks'], 'time_s': r['time_s'], 'backend': 'kani 0.68 / cbmc 6.11'}
+                     'backend': ('rustc type checker (cargo check)' if h.kind == 'rustc' else 'kani 0.68 / cbmc 6.11'),
+                     'companion_of': h.companion, 'status': r['status'], 'cbmc_checks': r['checks'], 'time_s': r['time_s']}
             kani_results.append(entry)
             if r['status'] == 'SUCCESS':
                 continue
-            if r['status'] == 'FAILURE' and r['time_s'] is not None and kbase.get(h.name) == 'SUCCESS':
+            if h.kind == 'rustc' and r['status'] == 'FAILURE' and kbase.get(h.name) == 'SUCCESS':
+                failures.append({'unit': 'rustc', 'function': h.companion or h.name, 'kind': 'kani', 'message': '; '.join(r['failed_checks'])[:400],
+                                 'clause': 'type-checker obligation %s (%s)' % (h.name, h.bound), 'gen_line': 0, 'obligation': 'rustc::%s' % h.name,
+                                 'src': h.target, 'rendered': r.get('log', ''), 'playback': '', 'kani': True})
+            elif r['status'] == 'FAILURE' and r['time_s'] is not None and kbase.get(h.name) == 'SUCCESS':
                 kani_violations.append(h)
             else:
                 undecided.append('kani harness %s: %s (baseline %s) - build error, timeout or resource limit' % (h.name, r['status'], kbase.get(h.name)))
@@ -379,7 +413,7 @@ def check_property(pid, tier, seed, replay_only=None):
     level = cfg.get('level', 'proof')
     # complete (loop-free, full-domain) Kani harnesses count as obligations; bounded ones never do
     for k in kani_results:
-        if k['kind'] == 'complete':
+        if k['kind'] in ('complete', 'rustc'):
             obligations += 1
             discharged += 1 if k['status'] == 'SUCCESS' else 0
     cov = {
@@ -468,7 +502,9 @@ def rebaseline():
         base['trusted'][pid] = sorted(set(t))
     hs = kanimod.load_harness_files()
     if hs and '--no-kani' not in sys.argv:
-        kres, klog, kwall = kanimod.run([h.name for h in hs], jobs=6)
+        kres, klog, kwall = kanimod.run([h.name for h in hs if h.kind != 'rustc'], jobs=6)
+        rres, _ = kanimod.run_rustc([h for h in hs if h.kind == 'rustc'])
+        kres.update(rres)
         base['kani'] = {h.name: kres[h.name]['status'] for h in hs}
         for h in hs:
             print('kani %-50s %s %ss' % (h.name, kres[h.name]['status'], kres[h.name]['time_s']))
